@@ -757,3 +757,112 @@ M("c08-comparator-args-swapped", "C08", ["C08.optable"],
   E(SP, "            return bool(operator(left(*args, **kwargs), right(*args, **kwargs)))", "            return bool(operator(right(*args, **kwargs), left(*args, **kwargs)))"))
 M("c08-not-returns-operand", "C08", ["C08.optable"],
   E(SP, "        return not predicate(*args, **kwargs)", "        return predicate(*args, **kwargs) is False"))
+
+# ----------------------------------------------------------------------------------------- C10
+M("c10-f1-reintroduced", "C10", ["C10.falsy"],
+  E(SM, "        self.model = model if model is not None else Model()", "        self.model = model if model else Model()"), note="F1")
+M("c10-f2-reintroduced", ["C10", "C11"], ["C10.falsy", "C11.target"],
+  E(SM, """        initial_state_value = (
+            self.start_value if self.start_value is not None else self.initial_state.value
+        )""", """        initial_state_value = self.start_value if self.start_value else self.initial_state.value"""), note="F2")
+M("c10-model-or-default", "C10", ["C10.falsy"],
+  E(SM, "        self.model = model if model is not None else Model()", "        self.model = model or Model()"))
+M("c10-is-active-compares-names", "C10", ["C10.active"],
+  E(ST, "        return self._machine().current_state == self", "        return self._machine().current_state.name == self.name"),
+  note="properties.jsonl: verified to pass all 348 tests")
+M("c10-membership-after-setattr", "C10", ["C10.access"],
+  E(SM, """        if value not in self.states_map:
+            raise InvalidStateValue(value)
+        setattr(self.model, self.state_field, value)""", """        setattr(self.model, self.state_field, value)
+        if value not in self.states_map:
+            raise InvalidStateValue(value)"""))
+M("c10-cached-current-state", "C10", ["C10.noshadow", "C10.access"],
+  E(SM, """        if value not in self.states_map:
+            raise InvalidStateValue(value)
+        setattr(self.model, self.state_field, value)""", """        if value not in self.states_map:
+            raise InvalidStateValue(value)
+        self._current = value
+        setattr(self.model, self.state_field, value)"""),
+  E(SM, """        return getattr(self.model, self.state_field, None)""", """        cached = getattr(self, "_current", None)
+        return cached if cached is not None else getattr(self.model, self.state_field, None)"""))
+M("c10-setter-stores-state-id", "C10", ["C10.access", "C01.write"],
+  E(SM, "        self.current_state_value = value.value", "        self.current_state_value = value.id"))
+M("c10-start-guard-truthiness", ["C10", "C11"], ["C10.falsy", "C11.guard"],
+  E(BASE, "        if self.sm.current_state_value is not None:\n            return", "        if self.sm.current_state_value:\n            return"),
+  note="a stored state value 0 is re-initialised")
+M("c10-getter-default-initial", "C10", ["C10.access"],
+  E(SM, "        return getattr(self.model, self.state_field, None)", "        return getattr(self.model, self.state_field, None) or self.start_value"))
+M("c10-state-eq-by-name-only", "C10", ["C10.active"],
+  E(ST, "        return isinstance(other, State) and self.name == other.name and self.id == other.id",
+    "        return isinstance(other, State) and self.name == other.name"), note="two states may share a display name")
+
+B("b-model-none-test-rewritten", ["C10"],
+  E(SM, "        self.model = model if model is not None else Model()", "        if model is None:\n            model = Model()\n        self.model = model"))
+
+# ----------------------------------------------------------------------------------------- C11
+M("c11-start-value-overrides-stored", "C11", ["C11.guard"],
+  E(BASE, "        if self.sm.current_state_value is not None:\n            return",
+    "        if self.sm.current_state_value is not None and self.sm.start_value is None:\n            return"),
+  note="properties.jsonl: verified to pass all 348 tests")
+M("c11-start-from-activate-initial-state", "C11", ["C11.who"],
+  E(SYNC, """        return self.processing_loop()
+
+    def processing_loop""", """        BaseEngine.start(self)
+        return self.processing_loop()
+
+    def processing_loop"""), note="re-activation re-enters the initial state when the model was reset")
+M("c11-always-enqueue", "C11", ["C11.guard"],
+  E(BASE, "        if self.sm.current_state_value is not None:\n            return\n\n", ""))
+M("c11-initial-trigger-elsewhere", "C11", ["C11.who"],
+  E(SM, """    def _put_nonblocking(self, trigger_data: TriggerData):
+        \"\"\"Put the trigger on the queue without blocking the caller.\"\"\"
+""", """    def reset(self):
+        self._engine.put(TriggerData(machine=self, event=BoundEvent("__initial__", _sm=self)))
+
+    def _put_nonblocking(self, trigger_data: TriggerData):
+        \"\"\"Put the trigger on the queue without blocking the caller.\"\"\"
+"""))
+M("c11-get-initial-ignores-start-value", "C11", ["C11.target"],
+  E(SM, """        initial_state_value = (
+            self.start_value if self.start_value is not None else self.initial_state.value
+        )""", """        initial_state_value = self.initial_state.value"""))
+M("c11-sync-start-no-drain", "C11", ["C11.who"],
+  E(SYNC, """        super().start()
+        self.activate_initial_state()""", """        super().start()"""))
+
+# ----------------------------------------------------------------------------------------- C13
+M("c13-f4-reintroduced", "C13", ["C13.send"],
+  E(SM, """        if event in self.__class__._events:
+            event_instance: BoundEvent = getattr(self, event)
+        else:
+            # Unknown event names must never resolve to arbitrary attributes of the machine.
+            event_instance = BoundEvent(id=event, name=event, _sm=self)
+""", """        event_instance: BoundEvent = getattr(
+            self, event, BoundEvent(id=event, name=event, _sm=self)
+        )
+"""), note="F4")
+M("c13-allowed-events-from-all-states", "C13", ["C13.lists"],
+  E(SM, "        return [getattr(self, event) for event in self.current_state.transitions.unique_events]",
+    "        return [getattr(self, event) for state in self.states for event in state.transitions.unique_events]"))
+M("c13-allowed-events-sorted", "C13", ["C13.lists"],
+  E(SM, "        return [getattr(self, event) for event in self.current_state.transitions.unique_events]",
+    "        return [getattr(self, event) for event in sorted(self.current_state.transitions.unique_events)]"))
+M("c13-unique-events-set", "C13", ["C13.lists"],
+  E(TL, "        return list(tmp_ordered_unique_events_as_keys_on_dict.keys())", "        return list(set(tmp_ordered_unique_events_as_keys_on_dict.keys()))"))
+M("c13-get-binds-to-owner", "C13", ["C13.bind"],
+  E(EV, "        return BoundEvent(id=self.id, name=self.name, _sm=instance)", "        return BoundEvent(id=self.id, name=self.name, _sm=self._sm or instance)"))
+M("c13-second-enqueue-site", ["C13"], ["C13.single"],
+  E(SM, """        result = event_instance(*args, **kwargs)""", """        if kwargs.pop("_twice", False):
+            self._engine.put(TriggerData(machine=self, event=event_instance, args=args, kwargs=kwargs))
+        result = event_instance(*args, **kwargs)"""))
+M("c13-bind-overwrites-existing", "C13", ["C13.bind"],
+  E(SM, """                if hasattr(target, event):
+                    warnings.warn(
+                        f"Attribute '{event}' already exists on {target!r}. Skipping binding.",
+                        UserWarning,
+                        stacklevel=2,
+                    )
+                    continue
+""", ""))
+M("c13-send-bound-to-other-name", "C13", ["C13.send"],
+  E(SM, "            event_instance = BoundEvent(id=event, name=event, _sm=self)", "            event_instance = BoundEvent(id=event.strip().lower(), name=event, _sm=self)"))
